@@ -37,6 +37,9 @@ def listNormIndex (cfg : Cfg) (key : Int) (len : Int) (ins : Bool) : Int :=
     (if ins then (if key + len < 0 then 0 else key + len) else if key ≥ -len then key + len else key)
   else key
 
+/-- the `consumed` mark is local to one dict write. -/
+def Forest.clearConsumed (f : Forest) : Forest := { f with consumed := false }
+
 def childNodes (its : Items) : List Tree := (its.map (·.2)).filter Tree.isNode
 
 def addRoots (f : Forest) (ts : List Tree) : Forest := ts.foldl Forest.addRoot f
@@ -44,30 +47,34 @@ def addRoots (f : Forest) (ts : List Tree) : Forest := ts.foldl Forest.addRoot f
 /-- replace the item at `pos` (list.py:425-428): formalize, store, detach the old value (parent
 only). On the patched tree the index is a position here; unpatched, a negative index stays in
 the child's path (F03). -/
-def listReplace (cfg : Cfg) (f : Forest) (m : Meta) (index : Int) (pos : Nat) (old : Tree) (ve : VE) : Forest :=
+def listReplace (cfg : Cfg) (f : Forest) (m : Meta) (index : Int) (pos : Nat) (old : Tree) (ve : VE) : Option Forest :=
   let r := evalVE cfg f none (some m.id) false m.part (m.path ++ [Key.i index]) ve
-  (r.1.mapAt m.id (storeKey (Key.i pos) (if cfg.reindexOnMutate then Key.i pos else Key.i index) r.2)).addRoot
-    (old.setParent none)
+  -- (`none`: the written container itself went into the offered value — a cycle, no after-state)
+  if (r.1.find? m.id).isNone then none else
+  some ((r.1.mapAt m.id (storeKey (Key.i pos) (if cfg.reindexOnMutate then Key.i pos else Key.i index) r.2)).addRoot
+    (old.setParent none))
 
 /-- insert (list.py:422-424; patched: the shifted siblings are re-indexed). -/
 def ownElement (its : Items) : VE → Option Tree
   | .ref id => (its.find? (fun kv => kv.2.id? == some id)).map (·.2)
   | _ => none
 
-def listInsert (cfg : Cfg) (f : Forest) (m : Meta) (its : Items) (index : Int) (len : Nat) (ve : VE) : Forest :=
+def listInsert (cfg : Cfg) (f : Forest) (m : Meta) (its : Items) (index : Int) (len : Nat) (ve : VE) : Option Forest :=
   -- fixes/C01-F79: a value that already is an element of this list is copied first
   let r := match (if cfg.insertCopiesOwn then ownElement its ve else none) with
     | some own =>
       let c := own.clone cfg false f.nextId (some m.id) (m.path ++ [Key.i index])
       ({ f with nextId := c.2 }, c.1)
     | none => evalVE cfg f none (some m.id) false m.part (m.path ++ [Key.i index]) ve
-  r.1.mapAt m.id (fun m' xs =>
+  if (r.1.find? m.id).isNone then none else
+  some (r.1.mapAt m.id (fun m' xs =>
     let ys := insertAt (pyInsertPos index len) r.2 xs
-    if cfg.reindexOnMutate then reindex m' ys else ys)
+    if cfg.reindexOnMutate then reindex m' ys else ys))
 
-def listAppend (cfg : Cfg) (f : Forest) (m : Meta) (index : Int) (ve : VE) : Forest :=
+def listAppend (cfg : Cfg) (f : Forest) (m : Meta) (index : Int) (ve : VE) : Option Forest :=
   let r := evalVE cfg f none (some m.id) false m.part (m.path ++ [Key.i index]) ve
-  r.1.mapAt m.id (fun m' xs => xs ++ [(Key.i index, r.2.setPath (m'.path ++ [Key.i index]))])
+  if (r.1.find? m.id).isNone then none else
+  some (r.1.mapAt m.id (fun m' xs => xs ++ [(Key.i index, r.2.setPath (m'.path ++ [Key.i index]))]))
 
 /-- does the element spec `pg.typing.Object(C0)` of a typed list accept the offered value?
 (the glue offers typed lists instances of C0 — new or existing — and, as the rejected value, ints) -/
@@ -76,11 +83,17 @@ def acceptsTyped (f : Forest) : VE → Bool
   | .ref id => (f.metaOf? id).any (fun m => m.kind == .obj 0)
   | _ => false
 
+def okOrCycle : Option Forest → Except Err (Forest × Bool)
+  | some g => .ok (g, true)
+  | none => .error .cycle
+
 /-- `List._set_item_without_permission_check` (list.py:397-434).
 `ins`: the value is wrapped in `Insertion`. Returns the new forest and whether a FieldUpdate was
 produced. -/
 def rawSetList (cfg : Cfg) (f : Forest) (m : Meta) (its : Items) (key : Int) (ins : Bool) (ve : VE) :
     Except Err (Forest × Bool) :=
+  -- only a pg.List has this method (the callers that do not dispatch on the kind are list methods)
+  if m.kind ≠ .list then .error .assertion else
   let len : Int := its.length
   let index0 := listNormIndex cfg key len ins
   if index0 ≥ len && ve.isMissing && !ins then .ok (f, false) else
@@ -94,10 +107,10 @@ def rawSetList (cfg : Cfg) (f : Forest) (m : Meta) (its : Items) (key : Int) (in
       if sameValue ve (some old) then .ok (f, false) else
       -- the new value is validated before anything is stored or detached
       if m.typed && !acceptsTyped f ve then .error .type else
-      .ok (listReplace cfg f m index pos old ve, true)
+      okOrCycle (listReplace cfg f m index pos old ve)
   else if m.typed && !acceptsTyped f ve then .error .type
-  else if index < len then .ok (listInsert cfg f m its index its.length ve, true)
-  else .ok (listAppend cfg f m index ve, true)
+  else if index < len then okOrCycle (listInsert cfg f m its index its.length ve)
+  else okOrCycle (listAppend cfg f m index ve)
 
 def dictBadKey (m : Meta) (key : Key) : Bool :=
   match m.kind with
@@ -117,15 +130,17 @@ def dictErase (f : Forest) (m : Meta) (its : Items) (key : Key) : Forest :=
 /-- formalize and store (dict.py:570-573). The old value has been detached before; it still
 occupies its slot until the new value is stored, and it becomes a root of its own unless the new
 value took it in. -/
-def dictStore (cfg : Cfg) (f : Forest) (m : Meta) (its : Items) (key : Key) (ve : VE) : Forest :=
+def dictStoreCore (cfg : Cfg) (f : Forest) (m : Meta) (its : Items) (key : Key) (ve : VE) : Option Forest :=
   let d := dictDetached its key
   let r := evalVE cfg f (d.bind Tree.id?) (some m.id) (isObjKind m.kind) m.part (m.path ++ [key]) ve
   let nv := adoptPartial (isObjKind m.kind) m.part r.2
-  let f3 := r.1.mapAt m.id (storeKey key key nv)
-  let consumed := match d.bind Tree.id? with
-    | some oid => r.2.ids.contains oid
-    | none => false
-  if consumed then f3 else addRoots f3 d.toList
+  let f3 := (r.1.mapAt m.id (storeKey key key nv)).clearConsumed
+  -- (`none`: the written container itself went into the offered value — a cycle, no after-state)
+  if (r.1.find? m.id).isNone then none else
+  some (if r.1.consumed then f3 else addRoots f3 d.toList)
+
+def dictStore (cfg : Cfg) (f : Forest) (m : Meta) (its : Items) (key : Key) (ve : VE) : Option Forest :=
+  dictStoreCore cfg f.clearConsumed m its key ve
 
 /-- `Dict._set_item_without_permission_check` (dict.py:533-583), also the attribute container of
 an object (object.py:896-900). -/
@@ -139,7 +154,7 @@ def rawSetDict (cfg : Cfg) (f : Forest) (m : Meta) (its : Items) (key : Key) (ve
     (if hasKey its key then .ok (dictErase f m its key, true) else .ok (f, false))
   else
     -- an object field is reset to its default
-    .ok (dictStore cfg f m its key (if ve.isMissing then VE.atom .none else ve), true)
+    okOrCycle (dictStore cfg f m its key (if ve.isMissing then VE.atom .none else ve))
 
 /-- dispatch on the kind of the container `t`. -/
 def rawSet (cfg : Cfg) (f : Forest) (t : Nat) (key : Key) (ins : Bool) (ve : VE) : Except Err (Forest × Bool) :=
@@ -416,6 +431,7 @@ def doRebind (cfg : Cfg) (f : Forest) (notifyOn : Bool) (t : Nat) (m : Meta)
 
 def delItemList (cfg : Cfg) (f : Forest) (notifyOn : Bool) (m : Meta) (its : Items) (idx : Int) (accOverride : Bool) : Res :=
   let len : Int := its.length
+  if m.kind ≠ .list then ⟨f, .skip⟩ else       -- `pop` / `remove` / integer `del` are list methods
   if m.sealed then ⟨f, .err .perm⟩ else
   if !m.accW && !accOverride then ⟨f, .err .perm⟩ else
   if idx < -len || idx ≥ len then ⟨f, .err .index⟩ else
@@ -618,6 +634,7 @@ def step (cfg : Cfg) (f : Forest) (notifyOn : Bool) : Op → Res
   | .dPopItem t =>
     match f.find? t with
     | some (.node m its) =>
+      if m.kind = .list then ⟨f, .skip⟩ else      -- a pg.List has no `popitem`
       if m.sealed then ⟨f, .err .perm⟩ else
       match its.getLast? with
       | none => ⟨f, .err .key⟩
@@ -682,7 +699,7 @@ def normalizeRoots (before : Forest) (after : Forest) (keepFresh : Bool) : Fores
   let held (r : Tree) : Bool := r.ids.any (fun i => decide (i < before.nextId))
   let surviving := oldRootIds.filterMap (fun i => after.roots.find? (fun r => r.id? == some i))
   let others := after.roots.filter (fun r => !isOld r && (keepFresh || !fresh r || held r))
-  { after with roots := surviving ++ sortByIdx key others, pool := [] }
+  { after with roots := surviving ++ sortByIdx key others, pool := [], consumed := false }
 
 def stepN (cfg : Cfg) (f : Forest) (notifyOn : Bool) (op : Op) : Res :=
   let r := step cfg f notifyOn op
